@@ -137,6 +137,9 @@ def run(ctx):
 
     # ---------- N4 chunk count selection
     chunk_count_selection(ctx, 'N4', bindings)
+    # .. and the frame's own duration field is what Frame::duration reports, whatever the deprecated header `speed` holds
+    import C01 as _c01
+    _c01.frame_duration_store(ctx, 'N1', bindings)
 
     # ---------- N5 pixel ratio
     _c15.pixel_ratio(ctx, rule='N5')
@@ -157,6 +160,10 @@ def run(ctx):
                      'never looked at)' % [q.callee_name(c) for c in late], ra.span, key=ra.name + '|N6')
         else:
             ctx.fail(ra.name + '|N6|no-loop', 'read_aseprite no longer calls parse_frame')
+
+    # the public loaders do not look at the input (or the file's size on disk) themselves: trailing bytes cannot reach a check
+    import iorules as _io
+    _io.entry_points(ctx, 'N6')
 
     # ---------- N7
     _c11.precedence(ctx, rule='N7')
